@@ -838,6 +838,17 @@ def rule_regex_builder(run, F, cfg):
     flags = {}
     for b, t in cr.calls(r"RegexBuilder::(unicode|case_insensitive|multi_line|dot_matches_new_line)$|RegexSetBuilder::(unicode|case_insensitive)$"):
         flags.setdefault(strip_generics(t["callee"]).rsplit("::", 2)[-2] + "::" + strip_generics(t["callee"]).rsplit("::", 1)[-1], []).append(cr.expr_operand(t["args"][1]))
+    # a lone pattern may be compiled as one regex; two or more are compiled TOGETHER (a set over the whole vector):
+    # the single-regex builder in compile_regex itself runs only where the vector holds exactly one pattern
+    lone = []
+    for b, t in cr.calls(r"^regex::bytes::RegexBuilder::new$"):
+        c = dominating_conditions(cr, b, render=cr.vexpr_operand)
+        lone.append((cr.loc(b), any(re.match(r"^\(std::vec::Vec::len\(\$\w+\) Eq 1\)$", k) and v == 1 for k, v in c.items())))
+    sets = [cr.vexpr_operand(t["args"][0]) for b, t in cr.calls(r"^regex::bytes::RegexSetBuilder::new$")]
+    run.ob("C02.3.regex-translation", "one-regex-only-for-one-pattern", bool(lone) and all(o for _, o in lone) and len(sets) >= 1,
+           f"compile_regex builds a single regex only under `patterns.len() == 1` ({lone}); otherwise a RegexSet over {sets}",
+           site=lone[0][0] if lone else cr.loc(0), config=cfg,
+           detail="taking patterns[0] for a fused filter silently drops all its other alternatives")
     uni = [v for k, vs in flags.items() if k.endswith("::unicode") for v in vs]
     run.ob("C02.3.regex-translation", "builders-not-unicode", bool(uni) and all(v == "false" for v in uni),
            f"every regex builder in compile_regex has unicode(false) ({flags})", site=cr.loc(0), config=cfg)
